@@ -660,7 +660,17 @@ def _sqrt(eng, st, args, kwargs):
 
 @builtin('time.time')
 def _time(eng, st, args, kwargs):
-    return fresh(KReal, 'clock')
+    # arbitrary float per call: the i-th read of a global clock returns clock_val(i)
+    f = eng.uf_cache.setdefault('clock_val', z3.Function('clock_val', z3.IntSort(), z3.RealSort()))
+    i = eng.ghost_int(st, 'clock')
+    eng.set_ghost_int(st, 'clock', i + 1)
+    return RealV(f(i))
+
+
+@builtin('torch.distributed.barrier')
+def _barrier(eng, st, args, kwargs):
+    eng.set_ghost_int(st, 'barriers', eng.ghost_int(st, 'barriers') + 1)
+    return NONE
 
 
 @builtin('collections.defaultdict', 'defaultdict')
